@@ -61,7 +61,12 @@ def run(ctx, model):
         f_fmt = model.method(ESS, "Date", "__date_formats")
         f_pre = model.method(ESS, "Date", "__date_pre")
         k, fmts = FL.call_static(model, "Date", "__date_formats")
-        per_format = lambda fmt: FL.call_static(model, "Date", "__date_pre", [fmt])
+
+        def per_format(fmt):
+            k, t = FL.call_static(model, "Date", "__date_pre", [fmt])
+            if k == "raise" and t.name == "TypeError":      # the helper no longer has the signature (format): go through the constructor
+                return FL.build(model, "Date", [[fmt], True])
+            return k, t
     except AnalysisError:
         f_fmt = f_pre = f_init
         k, fmts = "value", list(want)
@@ -189,4 +194,10 @@ def run(ctx, model):
         cfgs += [("Date", []), ("Date", [None, True])]
     ctx.parallel(cfgs, lambda c, cfg: e2e.compare(c, model, "R-E2E", *cfg), min_items=2)
     ctx.floor("R-E2E", ctx.rule_counts.get("R-E2E", 0), len(cfgs), "end-to-end comparisons")
+
+    # ---------------- R-PROCESS: the same configurations in one long-lived process, backwards and forwards
+    pcfgs = cfgs + [("Date", [[f]]) for f in ("d/m/yyyy", "yyyy-mm-dd", "dd/mm/yyyy")] + \
+        [("Date", [f]) for f in ("DD/MM/YYYY", "dd/mm/yyyy ", " d-m-yy", "Yyyy-mm-dd", "dd/mm/yyyy", "d-m-yy", "yyyy-mm-dd")]   # near misses of valid formats stay invalid
+    e2e.process_order(ctx, model, "R-PROCESS", pcfgs)
+    ctx.floor("R-PROCESS", ctx.rule_counts.get("R-PROCESS", 0), len(pcfgs), "configurations replayed in one process")
 
